@@ -185,7 +185,9 @@ outer:
 			}
 
 		case pa := <-pm.chClosePathIfIdle:
-			if pa.pendingRequests.Load() == 0 {
+			// the path may not have received its latest configuration yet:
+			// a path that now belongs to a static configuration must not be closed.
+			if pa.pendingRequests.Load() == 0 && pm.pathConfs[pa.confName].Regexp != nil {
 				pm.doClosePath(pa)
 			}
 
